@@ -1,4 +1,5 @@
 from dataclasses import dataclass, field
+from enum import Enum
 from fractions import Fraction
 from typing import (
     AbstractSet,
@@ -396,8 +397,11 @@ class ConstrainedLiteralMethod(DeserializationMethod):
 
     def deserialize(self, data: Any) -> Any:
         result = self.method.deserialize(data)
-        if type(data) in self.constraints:
-            validate_constraints(data, self.constraints[type(data)], None)
+        # constraints apply to the value of the literal, which coercion can make
+        # different of the data
+        value = result.value if isinstance(result, Enum) else result
+        if type(value) in self.constraints:
+            validate_constraints(value, self.constraints[type(value)], None)
         return result
 
 
